@@ -9,6 +9,7 @@
   (`harness/locality.py`) uses the radius `2^j (L + 2)`, which contains this window; `DWT1DForward` is `wavedec` (C01).
 -/
 import WaveletsVerif.Properties.C01
+import Mathlib.Data.List.GetD
 namespace WV.C07W
 open WV
 variable {R : Type} [CommRing R]
@@ -111,6 +112,33 @@ theorem wavedec_band_agree (h0 h1 : List R) (hL : h1.length = h0.length) : ∀ (
     · linarith
     · linarith
   | _, 0, _, _, _, _, h, _, _ => absurd h (by omega)
+
+theorem getZ_oob (g : List R) (i : Int) (h : i < 0 ∨ (g.length : Int) ≤ i) : getZ g i = 0 := by
+  unfold getZ
+  by_cases h0 : 0 ≤ i
+  · rw [if_pos h0, List.getD_eq_default g 0 (by omega)]
+  · rw [if_neg h0]
+
+/-- **the synthesis reads a window too**: sample `t` of `pywt.idwt` (mode zero) reads the coefficients `k` with
+`0 ≤ t + L − 2 − 2k < L` of both bands and nothing else -/
+theorem idwt_zero_local (g0 g1 lo lo' hi hi' : List R) (hg : g1.length = g0.length) (hlen : lo.length = lo'.length) (t : Nat)
+    (hw : ∀ k : Nat, 0 ≤ (t : Int) + g0.length - 2 - 2 * k → (t : Int) + g0.length - 2 - 2 * k < g0.length →
+      getN lo k = getN lo' k ∧ getN hi k = getN hi' k) :
+    getN (Spec.idwt .zero g0 g1 lo hi) t = getN (Spec.idwt .zero g0 g1 lo' hi') t := by
+  unfold Spec.idwt
+  simp only
+  rw [getN_tab, getN_tab, hlen]
+  split
+  · rw [sumN_eq, sumN_eq]
+    apply Finset.sum_congr rfl
+    intro k _
+    by_cases hin : 0 ≤ (t : Int) + g0.length - 2 - 2 * k ∧ (t : Int) + g0.length - 2 - 2 * k < g0.length
+    · obtain ⟨e1, e2⟩ := hw k hin.1 hin.2
+      rw [e1, e2]
+    · have z0 : getZ g0 ((t : Int) + g0.length - 2 - 2 * k) = 0 := getZ_oob g0 _ (by omega)
+      have z1 : getZ g1 ((t : Int) + g0.length - 2 - 2 * k) = 0 := getZ_oob g1 _ (by rw [hg]; omega)
+      rw [z0, z1]; ring
+  · rfl
 
 /-- non-vacuity and what the window is for `db2` (`L = 4`), two levels, coefficient 5: the samples 11 … 23 -/
 example : ((2:Int) ^ 2 * 5 - ((2:Int) ^ 2 - 1) * ((4:Int) - 1), (2:Int) ^ 2 * 5 + (2:Int) ^ 2 - 1) = (11, 23) := by decide
